@@ -97,11 +97,16 @@ class StripWhitespaceFilter:
 
     def _stripws_identifierlist(self, tlist):
         # Removes newlines before commas, see issue140
-        last_nl = None
+        last_nl = []
         for token in list(tlist.tokens):
-            if last_nl and token.ttype is T.Punctuation and token.value == ',':
-                tlist.tokens.remove(last_nl)
-            last_nl = token if token.is_whitespace else None
+            if token.ttype is T.Punctuation and token.value == ',':
+                # remove the whole run of whitespace in front of the comma
+                for ws in last_nl:
+                    tlist.tokens.remove(ws)
+            if token.is_whitespace:
+                last_nl.append(token)
+            else:
+                last_nl = []
 
             # next_ = tlist.token_next(token, skip_ws=False)
             # if (next_ and not next_.is_whitespace and
